@@ -388,6 +388,7 @@ def literal_matrix_items(tier):
                 yield 'matrix:attr:%s=%s' % (t, v[:12]), [('cfg.stone', 'namespace stone_cfg\n\nimport mx\n\nstruct Route\n    k %s\n' % ('mx.' + t if t[0] == 'M' or t[0] == 'A' or t.startswith('List(M') else t)),
                                                           ('m.stone', MATRIX_PREAMBLE + 'route r(Void, Void, Void)\n    attrs\n        k = %s\n' % v)]
                 yield 'matrix:annotation-arg:%s=%s' % (t, v[:12]), [('m.stone', MATRIX_PREAMBLE + 'annotation_type At\n    p %s\n\nannotation An = At(%s)\n\nannotation Ak = At(p=%s)\n\nstruct Hm\n    f Int32\n        @An\n' % (t, v, v))]
+                yield 'matrix:annotation-param-default:%s=%s' % (t, v[:12]), [('m.stone', MATRIX_PREAMBLE + 'annotation_type At\n    p %s = %s\n\nannotation An = At()\n\nstruct Hm\n    f Int32\n        @An\n' % (t, v))]
     # route schema shapes
     for body in ('union Route\n    a\n', 'struct Route\n    s mx.Ms\n', 'struct Route\n    l List(String)\n', 'struct Route\n    m Map(String, Int32)?\n', 'struct Route extends mx.Ms\n    z Int32?\n',
                  'struct Route\n    union\n        x mx.Ms\n    z Int32?\n', 'alias Route = mx.Ms\n', 'struct Route\n    "doc"\n', 'struct Route\n    v Void\n', 'struct route\n    z Int32?\n',
